@@ -75,11 +75,24 @@ theorem shape_addAll : ∀ (ps : List (Name × Loc)) (s s' : St), addAll s ps = 
       rw [ih _ _ h, shape_addObject _ _ _ _ h1]
     · simp at h
 
+theorem shape_cold (s : St) (nid : Nat) (x : Name) : (s.cold nid x).2.shape = s.shape := by
+  unfold St.cold
+  simp only
+  split <;> rfl
+
+theorem shape_getObjectRaw (s : St) (nid : Nat) (x : Name) : (s.getObjectRaw nid x).2.shape = s.shape := by
+  unfold St.getObjectRaw
+  repeat' split
+  all_goals first | rfl | exact shape_cold _ _ _ | (rw [shape_cold]; rfl)
+
 @[simp] theorem shape_getObject (s : St) (nid : Nat) (x : Name) : (s.getObject nid x).2.shape = s.shape := by
   unfold St.getObject
   simp only
-  repeat' split
-  all_goals simp [St.shape]
+  split
+  · exact shape_getObjectRaw s nid x
+  · exact shape_getObjectRaw s nid x
+
+@[simp] theorem shape_dropHints (s : St) (nids : List Nat) : (s.dropHints nids).shape = s.shape := rfl
 
 theorem shape_pushpop_scope (s t : St) (h : t.shape = s.pushScope.shape) : t.popScope.shape = s.shape := by
   simp only [St.shape, St.pushScope, St.popScope, Prod.mk.injEq] at h ⊢
